@@ -296,7 +296,7 @@ type Runner struct {
 	Events  []Event
 	OnEvent func(ev Event)
 
-	tableCache map[int64][]leveldb.VerifEntry
+	tableCache map[string][]leveldb.VerifEntry
 	Tracer     *lsmTracer
 	snapMu     sync.Mutex
 	snapSeqs   map[*leveldb.Snapshot]uint64
@@ -312,7 +312,7 @@ type ProgChecks struct {
 }
 
 func NewRunner(p *Prog) *Runner {
-	r := &Runner{P: p, St: stor.New(), M: kvmap{}, Stats: map[string]int{}, tableCache: map[int64][]leveldb.VerifEntry{}}
+	r := &Runner{P: p, St: stor.New(), M: kvmap{}, Stats: map[string]int{}, tableCache: map[string][]leveldb.VerifEntry{}}
 	r.O = p.Opts.Options()
 	if p.SlowTableCreateMs > 0 {
 		ms := p.SlowTableCreateMs
@@ -696,7 +696,7 @@ func (r *Runner) Run() {
 				r.fail("reopen:error", fmt.Sprintf("op %d: reopen: %v", at, err), at)
 				return
 			}
-			r.tableCache = map[int64][]leveldb.VerifEntry{}
+			r.tableCache = map[string][]leveldb.VerifEntry{}
 			r.fullCompare(at, "after-reopen")
 			if r.Checks.Files {
 				r.settle(at)
@@ -876,12 +876,14 @@ func (r *Runner) fileDiff() (extra, missing []string) {
 // ---- C06: structure of the live table set, checked on the implementation ----------------------
 
 func (r *Runner) tableEntries(t leveldb.VerifTable) ([]leveldb.VerifEntry, error) {
-	if es, ok := r.tableCache[t.Num]; ok {
+	// file numbers are reused after a discarded transaction: identify a table by its whole record
+	id := fmt.Sprintf("%d/%d/%x/%x", t.Num, t.Size, t.Imin, t.Imax)
+	if es, ok := r.tableCache[id]; ok {
 		return es, nil
 	}
 	es, err := leveldb.VerifTableEntries(r.DB, t)
 	if err == nil {
-		r.tableCache[t.Num] = es
+		r.tableCache[id] = es
 	}
 	return es, err
 }
